@@ -14,7 +14,7 @@ if ! git -C $ROOT/repo apply "$PATCH"; then echo "PATCH DOES NOT APPLY"; exit 2;
 cd $ROOT/verif && mkdir -p evidence replays
 for P in "$@"; do
   echo "=== $P on $(basename $(dirname $PATCH))"
-  VERIF_REPO=$ROOT/repo ./check $P --tier ${SEEDTIER:-quick} 2>&1 | cut -c1-700 | head -12
+  VERIF_HARNESS_TIMEOUT=${VERIF_HARNESS_TIMEOUT:-600} VERIF_REPO=$ROOT/repo ./check $P --tier ${SEEDTIER:-quick} 2>&1 | cut -c1-700 | head -12
   echo "exit=${PIPESTATUS[0]}"
 done
 git -C $ROOT/repo checkout -q -- .
